@@ -280,6 +280,10 @@ func genGraph(t *rapid.T) GraphCase {
 	c.TwoCmds = pick("twocmds", 5)
 	c.Empty = pick("empty", 3)
 	c.VarLike = pick("varlike", 3)
+	if len(c.TwoCmds) > 0 && rapid.IntRange(0, 3).Draw(t, "busy") == 0 {
+		c.Busy = []int{rapid.SampledFrom(c.TwoCmds).Draw(t, "busy_task")}
+		c.BusyErr = rapid.SampledFrom([]string{"ETXTBSY", "EAGAIN", "EINTR", "EMFILE"}).Draw(t, "busy_err")
+	}
 	perm := rapid.Permutation(graphNames[:n]).Draw(t, "order")
 	k := rapid.IntRange(1, 3).Draw(t, "nreq")
 	c.Request = append([]string(nil), perm[:k]...)
